@@ -265,7 +265,11 @@ var checks = map[string]*check{
 			"no schedule control over real processes: verdicts do not depend on timing; a cell exceeding 150 s counts as a hang",
 			"static TLS cells give both sides a configuration usable in both directions (certificate + roots), as a user of brokered gRPC connections must",
 		},
-		Parts: []part{{Name: "matrix", Kind: "enum", Bin: "e3.test", Test: "TestC14"}},
+		Parts: []part{
+			{Name: "matrix", Kind: "enum", Bin: "e3.test", Test: "TestC14"},
+			// under the virtual clock: a working pair is left completely idle for 2.5 minutes (thorough: up to 12) and then used again
+			{Name: "idle-session", Kind: "explore", Scen: "idle_session", Inst: inst("quick", "thorough"), Depths: depths([]int{0}, []int{0, 1}), Budget: budget(2*time.Minute, 10*time.Minute)},
+		},
 	},
 	"C16": {
 		Title: "Plugin serves only with the right cookie; announces one well-formed line",
